@@ -15,7 +15,12 @@ from .base import XPathToken
 
 
 class XPathAxis(XPathToken):
-    pattern = r'\b[^\d\W][\w.\-\xb7\u0300-\u036F\u203F\u2040]*(?=\s*\:\:|\s*\(\:.*\:\)\s*\:\:)'
+    # The lookahead skips whitespace and comments (with one level of nesting) up to the
+    # '::' of the axis. A comment cannot be matched with '.*': that does not cross a
+    # newline and, worse, it spans the code between two comments, e.g. in "(a cast as
+    # xs:integer (: c :)) + child (: d :) :: b" it made 'integer' an axis name.
+    pattern = r'\b[^\d\W][\w.\-\xb7\u0300-\u036F\u203F\u2040]*' \
+              r'(?=\s*(?:\(\:(?:(?!\(\:|\:\))[\s\S]|\(\:(?:(?!\:\))[\s\S])*\:\))*\:\)\s*)*\:\:)'
     label = 'axis'
     reverse_axis: bool = False
 
